@@ -143,6 +143,8 @@ class ScriptedApps:
             import re
 
             m = re.match(rb"/+t(\d+)", scope.get("raw_path") or b"")  # (a target may legally begin with empty segments: //t5/...)
+            if m is None:
+                m = re.match(rb"hvtag=(\d+)", scope.get("query_string") or b"")  # (... or have no path at all: http://host?hvtag=5)
             if m and m.group(1).decode() in bt:
                 return bt[m.group(1).decode()]
         bp = apps.get("by_path")
